@@ -6,12 +6,13 @@
 #include "tp/tp_common.h"
 
 enum { O_END = 0, O_CREATE, O_TCREATE0, O_TCREATE1, O_ATTACH, O_INFL_MSG, O_INFL_READ, O_INFL_TIMER,
-       O_SHUT, O_SHUT_B, O_SHUT_W, O_WAIT, O_DESTROY, O_QUIESCE, O_INFL_BUSY, O_GATE_B, O_HOOK_WAITS, O_INFL_STUCK, O_INFL_SYNC_BCAST, O_LATE_AOP, O_HOOK_GATE, O_TIMER_ABS, O_INFL_CBSEND_SKIP, O_INFL_CBSEND_OTHER };
+       O_SHUT, O_SHUT_B, O_SHUT_W, O_WAIT, O_DESTROY, O_QUIESCE, O_INFL_BUSY, O_GATE_B, O_HOOK_WAITS, O_INFL_STUCK, O_INFL_SYNC_BCAST, O_LATE_AOP, O_HOOK_GATE, O_TIMER_ABS, O_INFL_CBSEND_SKIP, O_INFL_CBSEND_OTHER, O_ATTACH_H };
 static const char *opname[] = { "end", "create", "threads_create(0)", "threads_create(skip_first)", "attach_first", "inflight:msg",
        "inflight:read-event", "inflight:timer", "shutdown", "shutdown(concurrent thread B)", "shutdown(from worker)", "shutdown_wait", "destroy", "quiesce", "inflight:busy-callback", "open-gate(thread G)",
        "stop-hooks-call-shutdown_wait", "inflight:event-that-stays-ready", "inflight:sync-broadcast-from-a-worker",
        "complete-an-async-operation-on-the-busy-worker", "stop-hook-of-the-last-worker-waits-on-the-gate",
-       "add-the-timer-again-with-absolute-time", "inflight:cbsend(self-skip)-from-a-worker", "inflight:cbsend(self-skip)-from-the-first-worker" };
+       "add-the-timer-again-with-absolute-time", "inflight:cbsend(self-skip)-from-a-worker", "inflight:cbsend(self-skip)-from-the-first-worker",
+       "attach_first(on a helper thread H that serves slot 0 from now on)" };
 
 #define MAXOPS 12
 typedef struct lvar_s {
@@ -156,6 +157,21 @@ shut_b_thread(void *arg) {
 	(void)arg;
 	tp_shutdown(tpc_tp);
 	sc_log("B: shutdown returned");
+	return (NULL);
+}
+
+/* a helper thread serves slot 0 through tp_thread_attach_first(); the pool is shut down, waited for and destroyed by the
+ * main thread: when tp_destroy() has returned the helper must be out of the pool (its stop hook included) */
+static pthread_t thr_h;
+static int have_h = 0;
+static volatile int helper_done = 0;
+static void *
+attach_h_thread(void *arg) {
+	int rc;
+	(void)arg;
+	rc = tp_thread_attach_first(tpc_tp);
+	sc_log("H: attach_first returned rc=%d", rc);
+	helper_done = 1;
 	return (NULL);
 }
 
@@ -319,6 +335,11 @@ life_scenario(int idx) {
 			rc = tpt_msg_send(tp_thread_get(tpc_tp, 0), NULL, 0, infl_cbsend_skip_cb, NULL);
 			sc_log("inflight cbsend(self-skip) seed for worker 0 rc=%d", rc);
 			break;
+		case O_ATTACH_H:
+			helper_done = 0;
+			pthread_create(&thr_h, NULL, attach_h_thread, NULL);	/* joined by the pool (tp_shutdown_wait joins whoever serves a slot) */
+			have_h = 1;
+			break;
 		case O_INFL_SYNC_BCAST:
 			rc = tpt_msg_send(target_thread(), NULL, 0, infl_sync_bcast_cb, NULL);
 			sc_log("inflight sync broadcast seed rc=%d", rc);
@@ -329,6 +350,10 @@ life_scenario(int idx) {
 		pthread_join(thr_b, NULL);
 	if (have_g)
 		pthread_join(thr_g, NULL);
+	if (have_h) {	/* the helper is the scenario's own thread: the pool joins it when its wait finds it serving slot 0, else the scenario does */
+		sc_gate_wait(&helper_done, "helper-back-from-attach_first");
+		sc_join_if_unjoined(thr_h);
+	}
 	sc_wait_quiescent();	/* anything that still wants to run (late callbacks!) runs now */
 	if (tpc_count(E_CB_BEGIN, -1, 6) != tpc_count(E_CB_END, -1, 6))
 		sc_fail("callback-cut-short", "the pool was torn down while a message callback was still running");
